@@ -168,8 +168,9 @@ def compare_metrics(ia, mb, qi):
     if missing or extra:
         if agg:
             fails.append((m_sig("agg-groups", cls), "query %d: groups missing %s, groups not expected %s" % (qi, [m_show(k) for k in missing][:4], [m_show(k) for k in extra][:4])))
-        elif missing and extra and (any(E[m][0] == G[x][0] for m in missing for x in extra) or ("unaligned" in lat and len(missing) == len(extra))):
-            # the same points under other labels
+        elif missing and extra and (any(set(E[m][0]) == set(G[x][0]) for m in missing for x in extra)
+                                    or ("unaligned" in lat and len(missing) == len(extra) and set(cls) & M_LABELS)):
+            # the same timestamps under other labels
             fails.append((m_sig("labels-changed", cls), "query %d: series %s not returned, series %s (same points) returned but never ingested under these labels" % (qi, [m_show(k) for k in missing][:4], [m_show(k) for k in extra][:4])))
         elif missing and extra:
             fails.append((m_sig("series-missing", cls), "query %d: series %s not returned" % (qi, [m_show(k) for k in missing][:4])))
